@@ -155,11 +155,17 @@ def run_case(case):
             readers.append(("concat", data))
         elif case["target"] == "bytesio":
             readers.append(("bytesio", data))
+            # the caller's own stream as the write session left it: not rewound (sixth hunt), and standing somewhere in the middle
+            readers.append(("bytesio-as-left", ("as-left", obj)))
         else:
             readers.append((case["target"], None))
         for tag, blob in readers:
             try:
-                if blob is not None:
+                if isinstance(blob, tuple):
+                    if blob[1] is None or not hasattr(blob[1], "getvalue") or blob[1].closed:
+                        continue
+                    src, closer = blob[1], (lambda: None)
+                elif blob is not None:
                     src, closer = io.BytesIO(blob), (lambda: None)
                 else:
                     src, closer = K.open_target(case["target"], path, "r")
